@@ -171,6 +171,7 @@ type Exec struct {
 	concrete  *replayVec // concrete mode: inputs come from this vector
 	skipInits bool
 	qlabel    string
+	lastSolver *Solver
 	lastProgress time.Time
 	lastDone  *State
 }
@@ -195,6 +196,7 @@ func (x *Exec) check(pc []*Term, extra *Term) string {
 			fmt.Fprintf(os.Stderr, "slow query %.1fs label=%s pc=%d\n", d.Seconds(), x.qlabel, len(pc))
 		}
 	}()
+	x.lastSolver = x.sol
 	r := x.sol.CheckPC(pc, extra)
 	if r != "unknown" {
 		return r
@@ -203,6 +205,7 @@ func (x *Exec) check(pc []*Term, extra *Term) string {
 		if x.fallbacks[i] == nil {
 			x.fallbacks[i] = NewSolver(k, x.timeoutMs, nil, &x.res.Solver)
 		}
+		x.lastSolver = x.fallbacks[i]
 		r = x.fallbacks[i].CheckPC(pc, extra)
 		if r != "unknown" {
 			return r
@@ -352,10 +355,24 @@ func (x *Exec) explore(st *State, stop func(*State) bool) (out []*State) {
 			base := append([]bool(nil), st.taken...)
 			st.nforks++
 			x.res.Forks++
-			{
-				f := x.top(st)
-				x.res.ForkSites[fmt.Sprintf("%s#%d", f.fn.Name(), f.block.Index)]++
+			f := x.top(st)
+			x.res.ForkSites[fmt.Sprintf("%s#%d", f.fn.Name(), f.block.Index)]++
+			// An instruction-level fork (nil check, symbolic index, map key, type assertion):
+			// run the children to the end of this instruction and join them again.
+			depth, ffn, fblk, fip := len(st.frames), f.fn, f.block, f.ip
+			_, isIf := f.block.Instrs[f.ip].(*ssa.If)
+			_, isRet := f.block.Instrs[f.ip].(*ssa.Return)
+			_, isRD := f.block.Instrs[f.ip].(*ssa.RunDefers)
+			joinable := x.merge && !isIf && !isRet && !isRD
+			stopI := func(s *State) bool {
+				if len(s.frames) != depth {
+					return false
+				}
+				t := x.top(s)
+				return t.fn == ffn && t.block == fblk && t.ip == fip+1
 			}
+			pcBase := len(st.pc)
+			var kids []*State
 			for _, b := range []bool{true, false} {
 				c := fr.cond
 				if !b {
@@ -366,8 +383,23 @@ func (x *Exec) explore(st *State, stop func(*State) bool) (out []*State) {
 					child.pc = append(child.pc, c)
 					child.learn(c)
 					child.replay = append(append([]bool(nil), base...), b)
-					out = append(out, x.explore(child, stop)...)
+					if joinable {
+						kids = append(kids, x.explore(child, stopI)...)
+					} else {
+						out = append(out, x.explore(child, stop)...)
+					}
 				}
+			}
+			if !joinable {
+				return out
+			}
+			merged := x.mergeGroup(st, kids, pcBase)
+			if len(merged) == 1 {
+				st = merged[0]
+				continue
+			}
+			for _, s2 := range merged {
+				out = append(out, x.explore(s2, stop)...)
 			}
 			return out
 		}
@@ -386,10 +418,9 @@ func (x *Exec) onPanic(st *State, ep *execPanic) {
 		x.res.Internal = append(x.res.Internal, "harness predicate panics: "+where)
 		return
 	}
-	// find the innermost non-harness frame for the report
 	x.res.Panics[where]++
 	x.res.Paths++
-	x.recordViolation(st, "PANIC", nil, where)
+	x.recordViolation(st, "PANIC", nil, where, false)
 }
 
 // freshFlag: c is a Boolean variable that occurs nowhere in the path condition, so both
@@ -1626,28 +1657,14 @@ func (x *Exec) assertStat(id string) *AssertStat {
 }
 
 // recordViolation extracts a model for pc ∧ extra and stores it (bounded per id).
-func (x *Exec) recordViolation(st *State, id string, extra *Term, where string) *Violation {
+func (x *Exec) recordViolation(st *State, id string, extra *Term, where string, fresh bool) *Violation {
 	x.violSeen[id]++
 	if x.violSeen[id] > x.maxViol {
 		return nil
 	}
 	v := &Violation{ID: id, Entry: x.res.Entry, Params: x.params, Where: where}
-	// the last query may have gone to a fallback; re-ask the primary solver for a model
-	s := x.sol
-	if r := s.CheckPC(st.pc, extra); r != "sat" {
-		got := false
-		for i := range x.fallbacks {
-			if x.fallbacks[i] != nil && x.fallbacks[i].CheckPC(st.pc, extra) == "sat" {
-				s, got = x.fallbacks[i], true
-				break
-			}
-		}
-		if !got {
-			v.Extra = map[string]string{"model": "unavailable"}
-			x.res.Violations = append(x.res.Violations, v)
-			return v
-		}
-	}
+	// every term whose value is wanted is defined first (a definition after the check would
+	// invalidate the model), then the back end that answered sat is asked again
 	var ts []*Term
 	for _, in := range st.inputs {
 		ts = append(ts, in.T)
@@ -1655,6 +1672,29 @@ func (x *Exec) recordViolation(st *State, id string, extra *Term, where string) 
 	for _, app := range x.ufApps {
 		ts = append(ts, app)
 		ts = append(ts, app.args...)
+	}
+	s := x.lastSolver
+	if !fresh || s == nil {
+		s = x.sol
+	}
+	for _, t := range ts {
+		s.emit(t)
+	}
+	if s.CheckPC(st.pc, extra) != "sat" {
+		if x.check(st.pc, extra) != "sat" {
+			v.Extra = map[string]string{"model": "unavailable"}
+			x.res.Violations = append(x.res.Violations, v)
+			return v
+		}
+		s = x.lastSolver
+		for _, t := range ts {
+			s.emit(t)
+		}
+		if s.CheckPC(st.pc, extra) != "sat" {
+			v.Extra = map[string]string{"model": "unavailable"}
+			x.res.Violations = append(x.res.Violations, v)
+			return v
+		}
 	}
 	vals, err := s.Values(ts)
 	if err != nil {
